@@ -65,23 +65,33 @@ def run(cx):
 
     with cx.ob("C20.2", "R-PATHSEQ", "auth::ResponseFuture::poll: inner future's result unchanged, or Ready(Ok(stored response))") as ob:
         b = cx.impl_method("anemo_tower::auth::future::ResponseFuture", "Future", "poll")
+        # the private two-state enum: whatever its variants are called, one holds the inner future and one the stored refusal
+        kind = cx.adt(f"{AUTH}::future::Kind")
+        role = {}
+        for v in kind["variants"]:
+            tys = " ".join(f["ty"] for f in v["fields"])
+            role[v["name"]] = "Error" if "anemo::types::response::Response<" in tys else "Future"
+        ob.require(sorted(role.values()) == ["Error", "Future"], "Kind/two-states", f"auth::future::Kind variants: {role}", kind["path"])
+        fut_names = tuple(n for n, r in role.items() if r == "Future")
+        fut_fields = tuple(f["name"] for v in kind["variants"] if role[v["name"]] == "Future" for f in v["fields"])
+        err_fields = tuple(f["name"] for v in kind["variants"] if role[v["name"]] == "Error" for f in v["fields"])
 
         def call_sym(c, o):
             if name_matches(c.fn, "future::Future::poll"):
                 t = o.of_operand(c.args[0])
-                ok = any(x[0] == "variant" and x[2] == "Future" for x in walk(t)) and mentions_field(t, "future") and c.dest == 0 \
+                ok = any(x[0] == "variant" and x[2] in fut_names for x in walk(t)) and any(mentions_field(t, f_) for f_ in fut_fields) and c.dest == 0 \
                     and is_param(o.of_operand(c.args[1]), "cx")
                 return "ret=inner.poll(cx)" if ok else f"poll(?{show(t)})"
             if name_matches(c.fn, "Option::take"):
                 t = o.of_operand(c.args[0])
-                return "take(response)" if mentions_field(t, "response") else "take(?)"
+                return "take(response)" if any(mentions_field(t, f_) for f_ in err_fields) else "take(?)"
             if c.fn.endswith("::project") or name_matches(c.fn, ("Option::unwrap", "Option::expect")):
                 return None
             return "call:" + c.fn
 
         def edge_sym(a, bb, subj, labels, o):
             if subj[0] == "discr" and any(x[0] == "call" and x[1].endswith("::project") for x in walk(subj)):
-                return "[" + "|".join(sorted(labels)) + "]"
+                return "[" + "|".join(sorted(role.get(l_, l_) for l_ in labels)) + "]"
             return "?cond"
 
         def stmt_sym(bbi, s, o):
@@ -95,7 +105,8 @@ def run(cx):
         ws = words_of(b, call_sym, edge_sym, stmt_sym)
         check_words(ob, b, ws, {"[Future] ret=inner.poll(cx) <return>", "[Error] take(response) ret=Ready(Ok(taken)) <return>"}, "auth::ResponseFuture::poll")
         # constructors store exactly their argument
-        for ctor, variant, field in (("future", "Future", "future"), ("invalid_auth", "Error", "response")):
+        inv = {r: n for n, r in role.items()}
+        for ctor, variant, field in (("future", inv.get("Future", "Future"), "future"), ("invalid_auth", inv.get("Error", "Error"), "response")):
             cb = cx.body(f"{AUTH}::future::ResponseFuture::{ctor}")
             t = Origins(cb).of_local(0)
             inner = [x for x in walk(t) if x[0] == "agg" and x[2].endswith(f"Kind::{variant}")]
@@ -176,7 +187,9 @@ def run(cx):
         # the set is the whole iterator; nobody else writes it
         nb = cx.body(f"{AUTH}::AllowedPeers::new")
         t = Origins(nb).of_local(0)
-        ok = t[0] == "agg" and t[3] and t[3][0][0] == "call" and name_matches(t[3][0][1], "Iterator::collect") and is_param(strip_identity(t[3][0][2][0]), "peers")
+        f0 = strip_identity(t[3][0]) if t[0] == "agg" and t[3] else ("u",)
+        # `peers.into_iter().collect()` or `HashSet::from_iter(peers)`: the whole argument, nothing filtered or truncated
+        ok = f0[0] == "call" and name_matches(f0[1], ("Iterator::collect", "iter::traits::collect::FromIterator::from_iter")) and is_param(strip_identity(f0[2][0], ("IntoIterator::into_iter",)), "peers")
         ob.require(ok, "AllowedPeers::new/collect-all", f"AllowedPeers::new builds {show(t)}", nb.path)
         check_field_writers(ob, prog, f"{AUTH}::AllowedPeers", "allowed_peers", [], kinds=("mutref", "write"))
         a = cx.adt(f"{AUTH}::AllowedPeers")
